@@ -23,7 +23,7 @@ from vf.xlate import BACKENDS, translate
 RULE = (
     "case = history of 1-6 invocations of one back end's rendered runner.sh in one jail: flag words from {none, -c, -r, -d f, -o dir|file, "
     "combinations, unknown flag, missing option argument, stray argument} x optional single fault (the named step fails when next reached: "
-    "environment setup, cmake/make | mkedanlzr/scram, the job, sudo, conversion, final copy). non-trivial = history with a successful build "
+    "environment setup, cmake/make | mkedanlzr/scram, the job, sudo, conversion, final copy; conversion and copy may also fail after they have begun to write their output file; the job may report success without writing anything). non-trivial = history with a successful build "
     "and >=2 runs, or a fault injected into a step that was actually reached; distinct by (back end, history)."
 )
 
@@ -69,7 +69,7 @@ def expected_tools(backend, state, compile_, run, calib):
         if backend == "atlas":
             seq += (["sudo"] if calib else []) + ["python", "cp-final"]
         else:
-            seq += ["cmsRun", "root"]
+            seq += ["cmsRun", "root", "cp-final"]  # (whether the converted file is copied or written in place is the script's business: see 'missing' below)
     return seq, st_, True
 
 
@@ -92,7 +92,7 @@ class Runner(RuleBasedStateMachine):
         flags=st.sampled_from(["", "", "-c", "-r", "-r", "-c -r", "-x", "-d", "-c extra", "-r extra", "-o", "--help", "-cr"]),
         dfile=st.sampled_from([None, None, "/data/a.root", "root://host//b.root", "/data/with space.root", "reldata/c.root"]),
         odir=st.sampled_from([None, None, "/results2", "/results/renamed.root", "/out2", "relout"]),
-        fault=st.sampled_from([None, None, None, "setup", "build0", "build1", "job", "sudo", "convert", "copy", "job-silent"]),
+        fault=st.sampled_from([None, None, None, "setup", "build0", "build1", "job", "sudo", "convert", "copy", "job-silent", "convert-partial", "copy-partial"]),
     )
     def invoke_rule(self, flags, dfile, odir, fault):
         self.invoke(flags, dfile, odir, fault)
@@ -110,15 +110,24 @@ class Runner(RuleBasedStateMachine):
         compile_ = not any(a in ("-r", "-cr") for a in args) if not (bad_flag or stray) else False
         run = not any(a in ("-c", "-cr") for a in args) if not (bad_flag or stray) else False
         # job-silent: the analysis job reports success but writes no output (nothing is delivered by this run: exit 0 is then impossible to justify)
+        drawn_fault = fault
         silent = fault == "job-silent"
         if silent:
             fault = None
+        # convert-partial / copy-partial: the step fails after it has begun to write where it was told to write
+        partial = fault in ("convert-partial", "copy-partial")
+        if partial:
+            fault = fault.split("-")[0]
         tool = {None: None, "setup": SETUP[be], "build0": BUILD[be][0], "build1": BUILD[be][1], "job": JOB[be], "sudo": "sudo" if be == "atlas" else None,
-                "convert": "root" if be != "atlas" else None, "copy": "cp-final" if be == "atlas" else None}[fault]
-        rc, log, out = self.jail.invoke(args, plan=(JOB[be] + ":silent") if silent else tool)
+                "convert": "root" if be != "atlas" else None, "copy": "cp-final"}[fault]
+        dest0 = odir or "/results"
+        if not dest0.startswith("/"):
+            dest0 = "/work/" + dest0
+        before = self.jail.read(dest0 if dest0.endswith(".root") else dest0 + "/ANALYSIS.root")
+        rc, log, out = self.jail.invoke(args, plan=(JOB[be] + ":silent") if silent else ((tool + ":partial") if (partial and tool) else tool))
         silent = silent and any(l.startswith("SILENT ") for l in log)
         n = self.jail.invocations
-        rep = {"backend": be, "calib": self.calib, "history": self.history + [{"args": args, "fault": tool}]}
+        rep = {"backend": be, "calib": self.calib, "history": self.history + [{"args": args, "fault": tool, "mode": drawn_fault}]}
         tools_run = [l.split(" ")[0] for l in log if not l.startswith(("JOB", "FAULT", "SILENT"))]
         jobs = [l for l in log if l.startswith("JOB ")]
         dest = odir or "/results"
@@ -172,7 +181,7 @@ class Runner(RuleBasedStateMachine):
             #  - without a failure every phase that was asked for must have happened.
             faulted = any(l.startswith("FAULT ") for l in log)
             if exp_seq is not None and not faulted and ok is True:
-                missing = [t for t in exp_seq if t not in tools_run and t not in ("sudo",)]
+                missing = [t for t in exp_seq if t not in tools_run and t not in ("sudo",) and not (t == "cp-final" and be != "atlas")]
                 if missing:
                     viol("phase-skipped", f"the invocation should have run {exp_seq}; {missing} never ran (ran: {tools_run})")
             if ok is True and rc != 0:
@@ -189,6 +198,9 @@ class Runner(RuleBasedStateMachine):
                     viol("not-converted", f"delivered file was not converted: {content!r}")
             if rc != 0 and mine:
                 viol("fresh-output-after-failure", f"exit {rc} but {dest_file} holds this run's output")
+            if rc != 0 and content is not None and content != before:
+                # (whatever was there before may stay, or go; a NEW file - empty, truncated - is a fresh output of a run that failed)
+                viol("fresh-output-after-failure", f"exit {rc} but {dest_file} was (re)written by this run: {content[:40]!r} (before: {None if before is None else before[:40]!r})")
             if not run and jobs:
                 viol("job-ran-with-c", "the job was started although -c was given")
             if not run and mine:
@@ -196,7 +208,7 @@ class Runner(RuleBasedStateMachine):
             if not compile_ and any(t in BUILD[be] for t in tools_run):
                 viol("built-with-r", f"build tools ran although -r was given: {tools_run}")
             self.state = new_state
-        self.history.append({"args": args, "fault": tool, "rc": rc, "reached": reached})
+        self.history.append({"args": args, "fault": tool, "mode": drawn_fault, "rc": rc, "reached": reached})
         runs_ok = sum(1 for h in self.history if h["rc"] == 0 and "-c" not in h["args"] and "-cr" not in h["args"] and not any(a in ("-x", "--help", "extra") for a in h["args"]))
         nt = (self.state == "built" and runs_ok >= 2) or any(h["reached"] for h in self.history)
         labels = [f"backend={be}", "flags=" + (flags or "none"), "fault=" + str(fault), f"exit={rc if rc in (0, 1, 10) else 'other'}", "state=" + self.state] + (["fault-reached"] if reached else [])
@@ -207,7 +219,7 @@ class Runner(RuleBasedStateMachine):
     @rule(
         dfile=st.sampled_from([None, "/data/a.root", "/data/b.root", "root://host//b.root", "reldata/c.root"]),
         odir=st.sampled_from([None, "/results2", "/results/renamed.root", "/out2", "relout"]),
-        fault=st.sampled_from([None, "job", "job", "convert", "copy", "sudo", "setup", None, "job-silent", "job-silent"]),
+        fault=st.sampled_from([None, "job", "job", "convert", "copy", "sudo", "setup", None, "job-silent", "job-silent", "convert-partial", "copy-partial", "convert-partial"]),
     )
     def rerun(self, dfile, odir, fault):
         """run-only invocations against an existing build (where stale outputs and inputs of earlier runs lie around)"""
@@ -296,7 +308,7 @@ def replay(case):
                     continue
                 rest.append(a)
             try:
-                m.invoke(" ".join(rest), dfile, odir, rev.get(fault_tool))
+                m.invoke(" ".join(rest), dfile, odir, h["mode"] if "mode" in h else rev.get(fault_tool))
             except Violation as v:
                 out.append({"key": v.key, "what": v.what})
                 break
